@@ -249,6 +249,25 @@ pub fn gen_c18(out: &mut Out, tier: &str, _rng: &mut Rng) {
             } } } }
         }
     }
+    gen_c18_large(out, tier);
+}
+/// larger arrays: sizes around the powers of two at which buffers, pre-allocation caps and
+/// length prefixes change behaviour (the small exhaustive shapes above cannot reach them)
+pub fn gen_c18_large(out: &mut Out, tier: &str) {
+    let mut shapes: Vec<(u64, u64)> = vec![(33, 32), (32, 33), (1, 1025), (1025, 1), (40, 40), (17, 61), (16, 16), (255, 1), (1, 257)];
+    if tier != "quick" { shapes.extend([(64, 65), (4097, 1), (3, 1366), (300, 7), (90, 91)]); }
+    for (c, r) in shapes {
+        for tr in 0..4 {
+            emit_roundtrip(out, 0, tr, 0, c, r, (0, 0, 0, 0));
+            if c * r <= 2000 { for ety in 1..5 { emit_roundtrip(out, ety, tr, 0, c, r, (0, 0, 0, 0)); } }
+            // the whole array as a view, and the largest interior window
+            let mut wins = vec![(0, 0, c, r)];
+            if c > 2 && r > 2 { wins.push((1, 1, c - 1, r - 1)); }
+            if c > 1 { wins.push((1, 0, c, r)); }
+            if r > 1 { wins.push((0, 0, c, r - 1)); }
+            for w in wins { for rk in [1, 2] { emit_roundtrip(out, 0, tr, rk, c, r, w); } }
+        }
+    }
 }
 pub fn replay_roundtrip(out: &mut Out, inp: &[u64]) {
     emit_roundtrip(out, inp[1], inp[2], inp[3], inp[4], inp[5], (inp[6], inp[7], inp[8], inp[9]));
